@@ -161,6 +161,15 @@ mods.append({"name": "CounterLeaf", "entries": [
     e(S128, "skinny64_inc_counter", "skinny64_inc_counter", [], None, {"counter": {"bytes": 8}}),
 ]})
 
+# ---------------------------------------------------------------- argument guards of the public key/tweak setters
+guards = []
+for file, fns in ((S128, ["skinny128_set_key", "skinny128_set_tweaked_key", "skinny128_set_tweak"]),
+                  (S64, ["skinny64_set_key", "skinny64_set_tweaked_key", "skinny64_set_tweak"]),
+                  (MAN, ["mantis_set_key", "mantis_set_tweak"])):
+    for fn in fns:
+        guards.append({"file": file, "func": fn, "lean": fn + "_guard", "flags": [], "guard": True})
+mods.append({"name": "Guards", "entries": guards})
+
 here = os.path.dirname(os.path.abspath(__file__))
 json.dump({"modules": mods}, open(os.path.join(here, "gen_manifest.json"), "w"), indent=1)
 print("entries:", sum(len(m["entries"]) for m in mods))
